@@ -25,13 +25,17 @@
     unknown members with ANY value (`unknown_member_ignored`), permutation of map members with
     distinct keys (`member_order_irrelevant`), and congruence for nested members
     (`nested_array`, `nested_members`).
-  The block/record structs are not yet instances of the schema table: for them the struct-level
-  statement is decided on the implementation by rewriting exporter-produced files with random
-  compositions of the rewrites and comparing the reader's result, cross-checked with the
-  independent Lean reader; the same rewritten files drive the model reader (`sch` driver).
+  The block tree is an instance of the schema table (`Model.Structs.block`), and what the application observes of a block – the
+  block object built by `CdnsBlockRead::read` after the raw read, and the records `read_generic_qr/aec/mm` return through the
+  bounds-checked accessors, or the class of the exception – is a function of the raw value (`Model.ReadBlock.blockOutcome`):
+  * `records_invariant`: two well-formed encodings of a block with the same denotation give the same records (or the same
+    exception class), under any parameter sets – index resolution and time arithmetic never see the encoding.
+  Tie: exporter-produced files rewritten with random compositions of the rewrites (and re-laid out as other writers may) are read
+  by the library and by the model reader (`blk`, `sch`, `rdq` drivers) and cross-checked with the independent Lean reader.
 -/
 import CdnsVerif.Proofs.Rewrite
 import CdnsVerif.Model.Structs
+import CdnsVerif.Model.ReadBlock
 
 namespace CdnsVerif.Props.C08
 open CdnsVerif.Spec.Cbor CdnsVerif.Model CdnsVerif.Model.Decoder
@@ -187,5 +191,18 @@ example (fuel : Nat) (h : 40 ≤ fuel) (r₁ r₂ : Bytes) :
     ((readVal fuel storageHints).run (hintsA.enc ++ r₁)).map (·.1) = ((readVal fuel storageHints).run (hintsB.enc ++ r₂)).map (·.1) :=
   equivalent_encodings_read_equal storageHints hintsA hintsB _ hints_wf.1 hints_wf.2 (by rfl) hints_same fuel
     (Nat.le_trans (by decide) h) (Nat.le_trans (by decide) h) r₁ r₂
+
+open CdnsVerif.Model.Structs CdnsVerif.Model.ReadBlock in
+/-- **Records are invariant under re-encoding.**  What the application observes of a block (block object, query/responses,
+    address-event counts, malformed messages – or the class of the exception thrown) is the same for any two well-formed
+    encodings with the same denotation: widths, definite/indefinite, chunking, member order and unknown members are invisible
+    to index resolution and time arithmetic as well. -/
+theorem records_invariant (rates : List Nat) (i₁ i₂ : Item) (v : Val) (h₁ : i₁.WF) (h₂ : i₂.WF)
+    (hv : denote block i₁ = some v) (heq : denote block i₁ = denote block i₂) (fuel : Nat)
+    (hf₁ : steps i₁ + cfuel i₁ ≤ fuel) (hf₂ : steps i₂ + cfuel i₂ ≤ fuel) (r₁ r₂ : Bytes) :
+    ((readVal fuel block).run (i₁.enc ++ r₁)).map (fun x => blockOutcome rates x.1) =
+    ((readVal fuel block).run (i₂.enc ++ r₂)).map (fun x => blockOutcome rates x.1) := by
+  rw [read_denotes block i₁ v h₁ hv fuel hf₁, read_denotes block i₂ v h₂ (heq ▸ hv) fuel hf₂]
+  rfl
 
 end CdnsVerif.Props.C08
